@@ -212,3 +212,34 @@ Theorem C15_numbering_wrap : forall F data u ps s f,
   flight F data u ps -> length ps = 16%nat -> (0 <= f <= 15)%Z -> process_downstream_ack u s f = u.
 Proof. exact flight_stall_16. Qed.
 Print Assumptions C15_numbering_wrap.
+
+(* ---- non-vacuity: the history of ServerExamples.v (V, L, N=1, N=10, a 30-byte tun packet, pings that
+   acknowledge fragment after fragment, ..., N=5) ------------------------------------------------------ *)
+From Iodine Require Import ServerExamples.
+
+(* N=1 is answered BADFRAG and changes nothing; N=10 is accepted *)
+Example C15_example_reject :
+  ex_payloads 2 = [s_BADFRAG] /\ u_fragsize (ex_user 1) = 100 /\ u_fragsize (ex_user 2) = 100 /\
+  ex_digest 2 = ex_digest 1 /\ ex_payloads 3 = [[0; 10]] /\ u_fragsize (ex_user 3) = 10.
+Proof. vm_compute. repeat split. Qed.
+
+(* the 31 framed bytes travel as fragments 0,1,2,3 of 10,10,10,1 bytes (the bound is tight), only the
+   last carries the last flag, and they concatenate to 0x5A ++ packet *)
+Example C15_example_transfer :
+  map (fun k => map (fun d => (N.of_nat (length d) - 2, (nth 1 d 0 / 2) mod 16, nth 1 d 0 mod 2)) (ex_payloads k)) [5; 7; 9; 10]%nat
+    = [[(10, 0, 0)]; [(10, 1, 0)]; [(10, 2, 0)]; [(1, 3, 1)]] /\
+  flat_map (fun k => skipn 2 (hd [] (ex_payloads k))) [5; 7; 9; 10]%nat
+    = 90 :: map N.of_nat (seq 100 20) ++ [10; 0; 0; 2] ++ map N.of_nat (seq 124 6).
+Proof. vm_compute. split; reflexivity. Qed.
+
+(* the reachable states of this history satisfy the hypothesis of C15_bound_all, and its conclusion is
+   not vacuous: event 5 answers tunnel data for session 0 *)
+Example C15_example_answer_ok :
+  exists q id to d denc, snd (nth 5 ex_trace ([], [])) = [OAnswer q id to d denc] /\
+    nslot ex_cfg (h_name q) = Some 0%nat /\ data_payload_ok (u_fragsize (ex_user 4)) d /\
+    pd_letter (chr (h_name q) 0) = true.
+Proof.
+  eexists. eexists. eexists. eexists. eexists. split; [vm_compute; reflexivity|].
+  split; [vm_compute; reflexivity|]. split; [|vm_compute; reflexivity].
+  eexists. eexists. eexists. split; [reflexivity|]. vm_compute. split; discriminate.
+Qed.
